@@ -237,7 +237,7 @@ def layoff_deadwood(
     for _, melds, unmelded in get_candidate_melds(hand):
         sls = _get_set_layoffs(unmelded, sets)
         for set_layoffs in powerset(sls):
-            lo_sets = [c for sl in set_layoffs for c in sl]
+            lo_sets = list(set_layoffs)
             um_set = set(unmelded) - set(lo_sets)
             rls = _get_run_layoffs(sorted(um_set), runs)
             for run_layoffs in powerset(rls):
